@@ -257,3 +257,5 @@ _also("C01", rule="manager level: the responder's completion with the Complete m
 _also("C05", rule="transport level: the routing BFS over the real graphsync transport also decides C05 - a data-transfer message of the wrong kind for its sender's role, from a peer that is not the channel's other party or naming another transfer, in either of the two extensions a graphsync response / request update can carry, reaches no events handler and terminates the graphsync request.")
 CHECKS["C11"]["packages"] = ["l1chan", "l2node", "schedh"]
 _also("C11", technique="deviation-bounded scheduler enumeration (the counterparty's resume vs a local pause) at lock + datastore granularity", rule="scheduler cells: on a responder whose initiator is paused, the initiator's resume (transport callback / network message) races with a local pause, <=1 (thorough 2) preemptions: whenever the local pause is applied first the resume is answered with the pause signal (resp. the transport is paused again), and the flags end initiator-running / responder-paused.")
+CHECKS["C07"]["packages"] = ["l1chan", "l2transport", "schedh", "l2node"]
+_also("C07", rule="manager level (the transport-events surface the graphsync transport reports to): every unique / non-unique assignment of a four-position block stream with replays in between, per direction and role, against the same reference; a restart hands the transport a channel state with the same totals.")
